@@ -357,13 +357,16 @@ func rangeD(tokens []Token, _ string, out *csDescriptors) error {
 		}
 	}
 
+	// a later declaration replaces an earlier one, an invalid list is dropped as a whole
+	var ranges [][2]int
 	for _, part := range pa.SplitOnComma(tokens) {
 		result, err := range_(pa.RemoveWhitespace(part))
 		if err != nil {
 			return err
 		}
-		out.Range.Ranges = append(out.Range.Ranges, result)
+		ranges = append(ranges, result)
 	}
+	out.Range = pr.OptionalRanges{Ranges: ranges}
 	return nil
 }
 
@@ -456,29 +459,33 @@ func fallback(tokens []Token, _ string, out *csDescriptors) error {
 // @descriptor("counter-style", wantsBaseUrl=true)
 // “symbols“ descriptor validation.
 func symbols(tokens []Token, baseUrl string, out *csDescriptors) error {
+	var symbols []pr.NamedString // a later declaration replaces an earlier one
 	for _, token := range tokens {
 		if p, ok := stringIdentOrUrl(token, baseUrl); ok {
-			out.Symbols = append(out.Symbols, p)
+			symbols = append(symbols, p)
 		} else {
 			return ErrInvalidValue
 		}
 	}
+	out.Symbols = symbols
 	return nil
 }
 
 // @descriptor("counter-style", wantsBaseUrl=true)
 // “additive-symbols“ descriptor validation.
 func additiveSymbols(tokens []Token, baseUrl string, out *csDescriptors) error {
+	var symbols []pr.IntNamedString // a later declaration replaces an earlier one
 	for _, part := range pa.SplitOnComma(tokens) {
 		result, err := pad_(pa.RemoveWhitespace(part), baseUrl)
 		if err != nil {
 			return err
 		}
-		if L := len(out.AdditiveSymbols); L != 0 && out.AdditiveSymbols[L-1].Int <= result.Int {
+		if L := len(symbols); L != 0 && symbols[L-1].Int <= result.Int {
 			return ErrInvalidValue
 		}
-		out.AdditiveSymbols = append(out.AdditiveSymbols, result)
+		symbols = append(symbols, result)
 	}
+	out.AdditiveSymbols = symbols
 	return nil
 }
 
